@@ -1598,6 +1598,104 @@ theorem parseChem_append {s₁ s₂ : Str} {c₁ c₂ : Comp} (h₁ : parseChem 
           rw [hLeq]; split <;> simp
         rw [this, parseComps_append, h₁, h₂]; rfl
 
+/-! ## mass is additive -/
+
+theorem msum_addTo (T : MassTable) (mono : Bool) (d : Comp) (k : Str) (v : Num) :
+    msum T mono (addTo d k v) = msum T mono d + em T mono k * v.val := by
+  induction d with
+  | nil => simp [addTo, msum, Num.add, Num.zero, Num.ofInt]
+  | cons a d ih =>
+    by_cases h : a.1 = k
+    · simp only [addTo, beq_iff_eq, h, if_true, msum, Num.add]
+      ring
+    · simp only [addTo, beq_iff_eq, h, if_false, msum, ih]
+      ring
+
+theorem msum_addAll (T : MassTable) (mono : Bool) (d : Comp) (ts : List Tok) :
+    msum T mono (addAll d ts) = msum T mono d + msum T mono ts := by
+  induction ts generalizing d with
+  | nil => simp [addAll, msum]
+  | cons t ts ih =>
+    rw [addAll_cons, ih, msum_addTo]
+    simp only [msum]
+    ring
+
+theorem mem_keys_addTo {d : Comp} {k k' : Str} {v : Num} (h : k' ∈ keys (addTo d k v)) : k' ∈ keys d ∨ k' = k := by
+  induction d with
+  | nil => simp [addTo, keys] at h; exact .inr h
+  | cons a d ih =>
+    by_cases hk : a.1 = k
+    · simp only [addTo, beq_iff_eq, hk, if_true, keys, List.map_cons, List.mem_cons] at h ⊢
+      rcases h with h | h
+      · exact .inr h
+      · exact .inl (.inr h)
+    · simp only [addTo, beq_iff_eq, hk, if_false, keys, List.map_cons, List.mem_cons] at h ⊢
+      rcases h with h | h
+      · exact .inl (.inl h)
+      · rcases ih h with h | h
+        · exact .inl (.inr h)
+        · exact .inr h
+
+theorem mem_keys_addAll {d : Comp} {ts : List Tok} {k' : Str} (h : k' ∈ keys (addAll d ts)) :
+    k' ∈ keys d ∨ k' ∈ keys ts := by
+  induction ts generalizing d with
+  | nil => exact .inl h
+  | cons t ts ih =>
+    rw [addAll_cons] at h
+    rcases ih h with h | h
+    · rcases mem_keys_addTo h with h | h
+      · exact .inl h
+      · exact .inr (by simp [keys, h])
+    · exact .inr (by simp only [keys, List.map_cons, List.mem_cons] at h ⊢; exact .inr h)
+
+theorem known_of_keys {T : MassTable} {mono : Bool} {c : Comp} (h : ∀ k ∈ keys c, Known T mono k) :
+    ∀ kv ∈ c, Known T mono kv.1 := fun kv hkv => h kv.1 (List.mem_map.2 ⟨kv, hkv, rfl⟩)
+
+theorem keys_known {T : MassTable} {mono : Bool} {c : Comp} (h : ∀ kv ∈ c, Known T mono kv.1) :
+    ∀ k ∈ keys c, Known T mono k := by
+  intro k hk
+  obtain ⟨kv, hkv, rfl⟩ := List.mem_map.1 hk
+  exact h kv hkv
+
+/-- `chem_mass(dict)` succeeds exactly when every key is known, and then it is the weighted sum -/
+theorem chemMassComp_ok {T : MassTable} {mono : Bool} {c : Comp} {m : Rat} (h : chemMassComp T mono c = .ok m) :
+    (∀ kv ∈ c, Known T mono kv.1) ∧ m = msum T mono c := by
+  induction c generalizing m with
+  | nil => simp [chemMassComp] at h; simp [msum, h]
+  | cons a c ih =>
+    obtain ⟨k, v⟩ := a
+    simp only [chemMassComp] at h
+    cases he : elemMass T mono k with
+    | error e => rw [he] at h; cases h
+    | ok mk =>
+      rw [he] at h
+      cases hc : chemMassComp T mono c with
+      | error e => rw [hc] at h; cases h
+      | ok t =>
+        rw [hc] at h
+        simp only [Except.ok.injEq] at h
+        obtain ⟨h1, h2⟩ := ih hc
+        refine ⟨?_, ?_⟩
+        · intro kv hkv
+          rcases List.mem_cons.1 hkv with rfl | hkv
+          · exact ⟨mk, he⟩
+          · exact h1 kv hkv
+        · simp [msum, em, he, ← h, h2]
+
+/-- the mass of a dict sum is the sum of the masses -/
+theorem chemMassComp_addAll {T : MassTable} {mono : Bool} {c₁ c₂ : Comp} {m₁ m₂ : Rat}
+    (h₁ : chemMassComp T mono c₁ = .ok m₁) (h₂ : chemMassComp T mono c₂ = .ok m₂) :
+    chemMassComp T mono (addAll c₁ c₂) = .ok (m₁ + m₂) := by
+  obtain ⟨k1, e1⟩ := chemMassComp_ok h₁
+  obtain ⟨k2, e2⟩ := chemMassComp_ok h₂
+  have hk : ∀ kv ∈ addAll c₁ c₂, Known T mono kv.1 := by
+    apply known_of_keys
+    intro k hk
+    rcases mem_keys_addAll hk with hk | hk
+    · exact keys_known k1 k hk
+    · exact keys_known k2 k hk
+  rw [chemMassComp_known hk, msum_addAll, e1, e2]
+
 /-! ## the domain of C15 stated without reference to the printed text
 
 `NumWF v` (a Python int, or a float that is a finite decimal) implies `NumOK v` (`Lemmas/NumText.lean`). -/
